@@ -14,12 +14,14 @@ class State:
     halo_policy = "M"    # "M": partition exists iff an element lies in its own [s, s+step); "H": iff window non-empty
     updates = 0          # number of += / <<= executed on leaf payloads
     events = None        # optional list collecting ("update",) events for C16
+    world = None         # optional stand-in world (mc/model/standins.py) recording <fiber>.trace(...) calls
 
 
 def reset_state(policy="M"):
     State.halo_policy = policy
     State.updates = 0
     State.events = None
+    State.world = None
 
 
 def norm(c):
@@ -202,6 +204,8 @@ class Fiber(FiberLike):
         return Lazy(out, self.below)
 
     def trace(self, *a, **kw):
+        if State.world is not None:
+            State.world.events.append(("fiber.trace",) + tuple(a) + (tuple(sorted(kw)),))
         return None
 
     @staticmethod
